@@ -17,7 +17,6 @@ func init() { register("C10", checkC10) }
 var c10Vetted = map[string]string{
 	"index @ x/cfedistributor/keeper.Keeper.addSharesToState : index []x/cfedistributor/types.State":         "pos is the >=0 result of the state search over the same list (closures built over the list that is passed in) or len-1 right after append",
 	"index @ x/cfedistributor/keeper.Keeper.addSharesToState : index []x/cfedistributor/types.State #2":      "same position as above (read-modify-write of the same element)",
-	"panic @ x/cfeminter.BeginBlocker : panic(error)":                                                        "Mint fails only if the current period is missing from the parameters (excluded by C10.currentperiod) or the bank refuses to mint/forward between registered module accounts (permissions checked by g3)",
 	"panic @ x/cfeminter/keeper.Keeper.GetMinterState : panic(\"stored minter state should not have bee...)": "the minter state key is written by InitGenesis (C12.fields) and never deleted (no STORE.delete on it)",
 }
 
